@@ -1284,7 +1284,53 @@ class Interp:
         return Dim.sym(name)
 
     # ---- calls
+    LIST_MUTATORS = {"append", "extend", "insert", "pop", "reverse", "clear", "remove", "sort", "update", "setdefault", "add", "discard", "popitem"}
+
+    def _mutate_local(self, e: ast.Call, st: State, fr: "Frame") -> Iterator[tuple[V, State]] | None:
+        """``name.append(x)`` and friends on a local list: performed on the abstract list when the
+        arguments are resolved, otherwise the local becomes Unknown (never silently unchanged)"""
+        f = e.func
+        if not (isinstance(f, ast.Attribute) and isinstance(f.value, ast.Name) and f.attr in self.LIST_MUTATORS):
+            return None
+        name = f.value.id
+        cur = st.env.get(name)
+        if not isinstance(cur, (TupleV, DictV)):
+            return None
+
+        def gen() -> Iterator[tuple[V, State]]:
+            for args, s2 in self.ev_star(e.args, st, fr):
+                cur2 = s2.env.get(name)
+                res: V = NONE
+                new: V | None = None
+                if isinstance(cur2, TupleV) and cur2.kind in ("list", "gen", "tuple") and args is not None and not e.keywords:
+                    items = list(cur2.items)
+                    m = f.attr
+                    if m == "append" and len(args) == 1:
+                        new = TupleV(tuple(items + [args[0]]), "list")
+                    elif m == "extend" and len(args) == 1 and self.iter_items(args[0]) is not None:
+                        new = TupleV(tuple(items + self.iter_items(args[0])), "list")  # type: ignore[operator]
+                    elif m == "insert" and len(args) == 2 and isinstance(args[0], IntV) and (i := s2.norm(args[0].d).as_int()) is not None:
+                        items.insert(i, args[1])
+                        new = TupleV(tuple(items), "list")
+                    elif m == "pop" and (not args or (isinstance(args[0], IntV) and s2.norm(args[0].d).as_int() is not None)) and items:
+                        i = -1 if not args else s2.norm(args[0].d).as_int()  # type: ignore[union-attr]
+                        if -len(items) <= i < len(items):
+                            res = items.pop(i)
+                            new = TupleV(tuple(items), "list")
+                    elif m == "reverse" and not args:
+                        new = TupleV(tuple(reversed(items)), "list")
+                    elif m == "clear" and not args:
+                        new = TupleV((), "list")
+                s2.env[name] = new if new is not None else self.unk(f"local {name} mutated by .{f.attr}(..)")
+                yield (res if new is not None else self.unk("result of an untracked mutation")), s2
+
+        return gen()
+
     def ev_call(self, e: ast.Call, st: State, fr: "Frame") -> Iterator[tuple[V, State]]:
+        mut = self._mutate_local(e, st, fr)
+        if mut is not None:
+            yield from mut
+            return
         # super().__init__(...) and super().method(...)
         if isinstance(e.func, ast.Attribute) and isinstance(e.func.value, ast.Call) and isinstance(e.func.value.func, ast.Name) and e.func.value.func.id == "super":
             yield from self.super_call(e, st, fr)
